@@ -141,6 +141,7 @@ type World struct {
 	DoFault       func(i int)
 	ControlConns  []*BackendConn
 	DialAttempts  map[string][]time.Duration // every SUT dial (accepted or not), by address
+	HostileUnpreparedID []byte // id of a statement in the proxy's prepared cache (hostile UNPREPARED replies)
 	ClockOn       bool // early clock advances allowed (off during boot and drain)
 	ClockBudget   int  // number of early clock advances left in this run
 }
